@@ -209,9 +209,11 @@ def infer(fns, externals):
         r, exits, errs, _ = m.run_fn(q, None)
         pre = None
         posts = [e for e in errs if e[0] == "post"]
-        if posts and isinstance(posts[0][2], tuple) and posts[0][2][1] in d["params"] and not any(n[0] == "Wait" for n in LK.walk(d["body"])):
-            pre = posts[0][2]
-            r, exits, errs, _ = m.run_fn(q, pre)
+        if posts and isinstance(posts[0][2], tuple) and posts[0][2][1] in d["params"]:
+            r2, exits2, errs2, _ = m.run_fn(q, posts[0][2])
+            if len(errs2) < len(errs):          # fewer complaints when the lock is assumed held on entry: unlock wrapper / called-with-lock-held
+                pre = posts[0][2]
+                r, exits, errs = r2, exits2, errs2
         post = None
         if exits and all(e == exits[0] for e in exits) and len(exits[0]) == 1 and exits[0][0][1] in d["params"] and not [e for e in errs if e[0] in ("post", "join", "loop")]:
             post = exits[0][0]
